@@ -86,6 +86,8 @@ pub struct Run {
     pub signal: Option<i32>,
     pub stdout: String,
     pub stderr: String,
+    /// killed by the watchdog (MV_CLI_TIMEOUT seconds, default 120)
+    pub timed_out: bool,
 }
 
 impl Run {
@@ -94,14 +96,60 @@ impl Run {
     }
 }
 
+static CLI_TIMEOUTS: std::sync::atomic::AtomicUsize = std::sync::atomic::AtomicUsize::new(0);
+
+/// number of `mos` invocations that had to be killed (a watchdog matter: reported as a health problem, never as a violation)
+pub fn cli_timeouts() -> usize {
+    CLI_TIMEOUTS.load(std::sync::atomic::Ordering::SeqCst)
+}
+
+pub fn cli_timeout_secs() -> u64 {
+    std::env::var("MV_CLI_TIMEOUT").ok().and_then(|v| v.parse().ok()).unwrap_or(120)
+}
+
 pub fn run_mos(dir: &Path, args: &[&str]) -> Run {
+    use std::io::Read;
     use std::os::unix::process::ExitStatusExt;
-    let out = Command::new(mos_bin()).args(args).current_dir(dir).stdin(Stdio::null()).stdout(Stdio::piped()).stderr(Stdio::piped()).output().expect("spawn mos");
+    let mut child = Command::new(mos_bin()).args(args).current_dir(dir).stdin(Stdio::null()).stdout(Stdio::piped()).stderr(Stdio::piped()).spawn().expect("spawn mos");
+    let mut so = child.stdout.take().unwrap();
+    let mut se = child.stderr.take().unwrap();
+    let t1 = std::thread::spawn(move || {
+        let mut b = vec![];
+        let _ = so.read_to_end(&mut b);
+        b
+    });
+    let t2 = std::thread::spawn(move || {
+        let mut b = vec![];
+        let _ = se.read_to_end(&mut b);
+        b
+    });
+    let deadline = std::time::Instant::now() + std::time::Duration::from_secs(cli_timeout_secs());
+    let mut timed_out = false;
+    let status = loop {
+        match child.try_wait() {
+            Ok(Some(st)) => break Some(st),
+            Ok(None) => {
+                if std::time::Instant::now() > deadline {
+                    timed_out = true;
+                    let _ = child.kill();
+                    break child.wait().ok();
+                }
+                std::thread::sleep(std::time::Duration::from_millis(2));
+            }
+            Err(_) => break None,
+        }
+    };
+    let out = t1.join().unwrap_or_default();
+    let err = t2.join().unwrap_or_default();
+    if timed_out {
+        CLI_TIMEOUTS.fetch_add(1, std::sync::atomic::Ordering::SeqCst);
+    }
     Run {
-        code: out.status.code(),
-        signal: out.status.signal(),
-        stdout: String::from_utf8_lossy(&out.stdout).to_string(),
-        stderr: String::from_utf8_lossy(&out.stderr).to_string(),
+        code: status.and_then(|s| s.code()),
+        signal: status.and_then(|s| s.signal()),
+        stdout: String::from_utf8_lossy(&out).to_string(),
+        stderr: String::from_utf8_lossy(&err).to_string(),
+        timed_out,
     }
 }
 
